@@ -18,6 +18,12 @@ UDP = c01.UDP
 SP = 'sessions::p2p_spectator_session::SpectatorSession'
 
 
+def _remaining_positive(W, a):
+    """`sync_remaining_roundtrips > 0`, also spelled `!= 0` (the field is unsigned)"""
+    unsigned = any(x['name'] == 'sync_remaining_roundtrips' and x['ty'].startswith('u') for x in W.struct_fields('UdpProtocol'))
+    return match_lin(a, [(exact('self.sync_remaining_roundtrips'), 1)], lo=1) or (unsigned and match_lin(a, [(exact('self.sync_remaining_roundtrips'), 1)], neq=0))
+
+
 def o1(W, ob):
     st = [w for w in W.writes_to_field('state')[0] if w['kind'] == 'store' and 'UdpProtocol' in w['fn'].path]
     ob.require_count(len(st), 4, 'stores to UdpProtocol.state')
@@ -105,7 +111,7 @@ def o2(W, ob):
                 fields = dict(zip(s.rv.j['fields'], s.rv.ops))
                 total = key(cx.expr_operand(fields['total']))
                 count = key(cx.expr_operand(fields['count']))
-                ok = every_disjunct_has(g, lambda a: match_lin(a, [(exact('self.sync_remaining_roundtrips'), 1)], lo=1)) and \
+                ok = every_disjunct_has(g, lambda a: _remaining_positive(W, a)) and \
                     total == 'NUM_SYNC_PACKETS' and count == '(NUM_SYNC_PACKETS Sub self.sync_remaining_roundtrips)'
                 ob.check(ok, 'on_sync_reply|synchronizing-event', 'Synchronizing{total, count} announces total = NUM_SYNC_PACKETS and count = total - remaining while remaining > 0',
                          'Synchronizing event: total=%s count=%s guard=%s' % (total, count, dnf_str(g)[:200]), where(f, s.line))
